@@ -107,7 +107,7 @@ class Explorer:
                 self.by_target[c.target] = c
         self.invariants = invariants
         self.types = TypeParser(index, ['fpy2.number', 'fpy2.utils', 'fpy2', 'fpy2.ast', 'fpy2.analysis',
-                                        'fpy2.transform.path', 'fpy2.transform.cursor', 'fpy2.transform.error'])
+                                        'spec.c02', 'fpy2.transform.path', 'fpy2.transform.cursor', 'fpy2.transform.error'])
         # stand-in classes for external objects (Python ast nodes) live in spec modules; searched last
         self.types.default_modules += [m for m in ('spec.c06',) if index.module(m) is not None]
         self.intrinsics = Intrinsics(self)
@@ -581,7 +581,12 @@ class Explorer:
             if c.post is not None:
                 extra = {'result': result, 'old': SObj(None, old.fields, 'old')}
                 for k, cond in self._call_spec(P, c.post, bound, extra).items():
-                    P.oblige(f'{short}#post[{k}]', 'post', P.truthy(cond))
+                    cond = P.truthy(cond)
+                    P.oblige(f'{short}#post[{k}]', 'post', cond)
+                    if c.opts.get('chain'):
+                        # proof steps: a clause, once stated as an obligation, is a fact for the *later* clauses
+                        # (sound by induction over the clause order; an open step leaves the contract open)
+                        P.assume(cond, fact=True)
             for callee, cnt in c.opts.get('call_counts', {}).items():
                 P.oblige(f'{short}#calls[{callee}=={cnt}]', 'calls', P.modular_calls.get(callee, 0) == cnt)
             # frame: inputs unchanged unless listed in modifies
